@@ -879,12 +879,41 @@ func (c *Ctx) rulePoppedBucketDrained(id string) {
 			ru.Check(bad == "", key, c.whereI(at), "left only through its normal end", bad)
 		}
 	}
+	// pop sites: heap.Pop itself, and calls of a package helper that returns what it popped (popExpired() *bucket)
+	type popSite struct {
+		f  *ssa.Function
+		pc *core.Call
+	}
+	var sites []popSite
+	returnsPopped := map[*ssa.Function]bool{}
 	for _, f := range c.P.ModFuncs() {
 		if f.Package() == nil || f.Package().Pkg.Path() != c.P.Rel("wasp/expiration") {
 			continue
 		}
 		for _, pc := range core.CallsTo(f, pop) {
 			pc := pc
+			sites = append(sites, popSite{f, pc})
+			for _, rv := range returnValues(f) {
+				if depReaches(rv, func(v ssa.Value) bool { return v == pc.Value() }) {
+					returnsPopped[f] = true
+				}
+			}
+		}
+	}
+	for _, f := range c.P.ModFuncs() {
+		if f.Package() == nil || f.Package().Pkg.Path() != c.P.Rel("wasp/expiration") {
+			continue
+		}
+		for _, cl := range core.CallsIn(f) {
+			if cl.Static != nil && returnsPopped[cl.Static] && cl.Value() != nil {
+				sites = append(sites, popSite{f, cl})
+			}
+		}
+	}
+	for _, ps := range sites {
+		f := ps.f
+		{
+			pc := ps.pc
 			c.R.Fn(c.fname(f))
 			isPopped := func(v ssa.Value) bool { return v == pc.Value() }
 			drainLoops(f, isPopped, func(loops []*core.Loop, l *core.Loop) bool {
